@@ -39,13 +39,29 @@ pub struct Sc {
     /// the CSV files use the deprecated 'date' column for the settlement date
     #[serde(default)]
     pub legacy_date_col: bool,
+    /// Look-ups over a cache an earlier run left behind, while the network misbehaves.
+    #[serde(default)]
+    pub degraded: Vec<Degraded>,
     pub hash_seed: u64,
+}
+
+#[derive(Clone, Debug, Serialize, Deserialize, PartialEq)]
+pub struct Degraded {
+    /// the earlier run happened this many days before today ...
+    pub warm_days_before: i64,
+    pub warm_published_today: bool,
+    /// ... and looked these dates up (healthy network), leaving its cache behind
+    pub warm_lookups: Vec<String>,
+    pub csv_cache: bool,
+    /// today's run: look-ups by one loader, and the fault plan per request
+    pub lookups: Vec<String>,
+    pub net_faults: Vec<Option<String>>,
 }
 
 pub fn generate(seed: u64) -> Sc {
     let mut r = Rng::new(seed);
     let cal = gen_calendar(&mut r);
-    let format = gen_format(&mut r);
+    let mut format = gen_format(&mut r);
     let boc0 = BocData::new(&cal, &format, &[]);
     let today = gen_today(&mut r, &boc0);
     let published_today = r.chance(1, 2);
@@ -137,10 +153,39 @@ pub fn generate(seed: u64) -> Sc {
         }
         app_runs.push(rows);
     }
+    // Look-ups over an earlier run's cache while the network misbehaves: the stale cache must
+    // never stand in for the download that failed.
+    let mut degraded = vec![];
+    if r.chance(1, 3) {
+        for _ in 0..r.range(1, 2) {
+            let before = *r.pick(&[1i64, 2, 3, 5, 8, 12, 30, 370]);
+            let first = ymd(cal.start_year, 1, 1);
+            let wtoday = (today - Duration::days(before)).max(first + Duration::days(1));
+            let before = (today - wtoday).whole_days();
+            let mut warm_lookups = vec![];
+            for _ in 0..r.range(1, 3) {
+                warm_lookups.push((wtoday - Duration::days(r.range(0, 9))).max(first).to_string());
+            }
+            let mut lk = vec![];
+            for _ in 0..r.range(1, 4) {
+                lk.push(match r.weighted(&[4, 3, 2]) {
+                    0 => today - Duration::days(r.range(0, before.min(12) + 2)),
+                    1 => wtoday + Duration::days(r.range(-3, 9)),
+                    _ => *r.pick(&lookups),
+                }.max(first));
+            }
+            let nf: Vec<Option<String>> = (0..8).map(|_| if r.chance(1, 2) { Some(r.pick(&NET_FAULT_KINDS).to_string()) } else { None }).collect();
+            degraded.push(Degraded { warm_days_before: before, warm_published_today: r.chance(1, 2), warm_lookups, csv_cache: r.chance(2, 3), lookups: lk.iter().map(|d| d.to_string()).collect(), net_faults: nf });
+        }
+    }
+    // The order in which the server lists the observations is a matter of format.
+    format.obs_order = r.weighted(&[14, 2, 2, 2]) as u8;
+    format.order_seed = r.next_u64();
     Sc {
         cal,
         format,
         malformed,
+        degraded,
         today: today.to_string(),
         published_today,
         lookups: lookups.iter().map(|d| d.to_string()).collect(),
@@ -244,6 +289,12 @@ impl Engine for C12 {
             }
         };
         st.add("sim.days", 0);
+        match sc.format.obs_order {
+            1 => st.bump("probe.observations_listed_descending"),
+            2 => st.bump("probe.observations_listed_late"),
+            3 => st.bump("probe.observations_listed_twice"),
+            _ => {}
+        }
         let mut processes: Vec<Vec<time::Date>> = sc.lookups.iter().map(|ds| vec![pd(ds)]).collect();
         for seq in &sc.sequences {
             processes.push(seq.iter().map(|ds| pd(ds)).collect());
@@ -265,6 +316,7 @@ impl Engine for C12 {
                 app_console: false,
                 app_legacy_date: false,
                 net_faults: vec![],
+                server_today: None,
                 fs_faults: FsFaultSpec::default(),
                 knobs: Knobs::default(),
                 hash_seed: sc.hash_seed,
@@ -381,6 +433,97 @@ impl Engine for C12 {
             }
         }
 
+        // Degraded network over an earlier run's cache: an earlier process (healthy network)
+        // leaves its cache behind; today's process meets network faults. Any answer it gives
+        // must be the model's; it may fail only where a fault fired during that look-up.
+        for dg in &sc.degraded {
+            crate::interpose::with_world(|w| w.fs.disk = crate::simfs::Disk::new());
+            let wtoday = today - Duration::days(dg.warm_days_before);
+            let cache = if dg.csv_cache { CacheKind::Csv } else { CacheKind::Mem };
+            let warm = run_fx_process(FxPlan {
+                data: boc.clone(),
+                today: wtoday,
+                published_today: dg.warm_published_today,
+                force: false,
+                cache: cache.clone(),
+                mem_in: MemState::new(),
+                lookups: dg.warm_lookups.iter().map(|d| pd(d)).collect(),
+                app_rows: None,
+                app_files: 1,
+                app_console: false,
+                app_legacy_date: false,
+                net_faults: vec![],
+                server_today: None,
+                fs_faults: FsFaultSpec::default(),
+                knobs: Knobs::default(),
+                hash_seed: sc.hash_seed ^ 0x11,
+            });
+            st.bump("sim.processes");
+            st.add("sim.days", dg.warm_days_before.max(0) as u64);
+            if warm.panic.is_some() {
+                push(Violation { kind: "panic".into(), signature: "panic in look-up".into(), detail: format!("earlier run (today {}) look-ups {:?} panicked: {:?}", wtoday, dg.warm_lookups, warm.panic) }, &mut violations);
+                continue;
+            }
+            let obs = run_fx_process(FxPlan {
+                data: boc.clone(),
+                today,
+                published_today: pt,
+                force: false,
+                cache,
+                mem_in: warm.mem_out.clone(),
+                lookups: dg.lookups.iter().map(|d| pd(d)).collect(),
+                app_rows: None,
+                app_files: 1,
+                app_console: false,
+                app_legacy_date: false,
+                net_faults: dg.net_faults.clone(),
+                server_today: None,
+                fs_faults: FsFaultSpec::default(),
+                knobs: Knobs::default(),
+                hash_seed: sc.hash_seed ^ 0x12,
+            });
+            st.bump("sim.processes");
+            st.bump("probe.degraded_network_runs");
+            let ctx = format!("earlier run on {} (published_today {}) looked up {:?} and left a {} cache; today {} (published_today {}) one loader looks up {:?} with network faults {:?}", wtoday, dg.warm_published_today, dg.warm_lookups, if dg.csv_cache { "CSV" } else { "in-memory" }, today, pt, dg.lookups, dg.net_faults);
+            if let Some(p) = &obs.panic {
+                push(Violation { kind: "panic".into(), signature: "panic in look-up over a cache with a failing network".into(), detail: format!("{}: {}", ctx, p) }, &mut violations);
+                continue;
+            }
+            for r in &obs.requests {
+                if let Some(f) = &r.fault {
+                    st.bump(&format!("fault.{}", f));
+                }
+            }
+            for lo in &obs.lookups {
+                let expect = ref_lookup(&boc, today, pt, lo.date);
+                let faulted = obs.requests[lo.req_from.min(obs.requests.len())..lo.req_to.min(obs.requests.len())].iter().any(|q| q.fault.is_some());
+                digest = fnv64_add(digest, show_answer(&lo.result).as_bytes());
+                match (&expect, &lo.result) {
+                    (RefAnswer::Rate { date, .. }, Ok((gd, gr))) => {
+                        if gd != date {
+                            let sig = if *gd > lo.date { "rate of a later day" } else if (lo.date - *gd).whole_days() > 7 { "rate older than 7 days" } else { "wrong day's rate" };
+                            push(Violation { kind: "wrong_rate_date".into(), signature: format!("{} (failing network over an earlier run's cache)", sig), detail: format!("{}\nlook-up of {}: reference model says rate of {}, code returned rate of {} = {}", ctx, lo.date, date, gd, gr) }, &mut violations);
+                        } else if !rate_matches(&boc, *date, gr, false) {
+                            push(Violation { kind: "wrong_rate_value".into(), signature: "wrong value (failing network over an earlier run's cache)".into(), detail: format!("{}\nlook-up of {}: rate of {} published as v={}, code returned {}", ctx, lo.date, date, boc.published[date], gr) }, &mut violations);
+                        } else if faulted {
+                            st.bump("probe.degraded_right_answer_despite_fault");
+                        }
+                    }
+                    (RefAnswer::NoRate, Ok((gd, gr))) => {
+                        push(Violation { kind: "rate_where_none_exists".into(), signature: "rate where none exists (failing network over an earlier run's cache)".into(), detail: format!("{}\nlook-up of {}: reference model says no usable rate, code returned rate of {} = {}", ctx, lo.date, gd, gr) }, &mut violations);
+                    }
+                    (RefAnswer::NoRate, Err(_)) => {}
+                    (RefAnswer::Rate { date, depth }, Err(msg)) => {
+                        if faulted {
+                            st.bump("probe.degraded_lookup_failed_on_fault");
+                        } else {
+                            push(Violation { kind: "error_where_rate_exists".into(), signature: "error although a rate exists and no network fault fired during the look-up".into(), detail: format!("{}\nlook-up of {}: reference model says rate of {} (look-back {}), code failed: {}", ctx, lo.date, date, depth, msg.lines().next().unwrap_or("")) }, &mut violations);
+                        }
+                    }
+                }
+            }
+        }
+
         // Application path: CSV rows -> load_tx_rates -> Tx::try_from -> deltas.
         for (run_i, rows) in sc.app_runs.iter().enumerate() {
             let n_files = sc.app_run_files.get(run_i).copied().unwrap_or(1).max(1);
@@ -404,6 +547,7 @@ impl Engine for C12 {
                 app_console: false,
                 app_legacy_date: sc.legacy_date_col,
                 net_faults: vec![],
+                server_today: None,
                 fs_faults: FsFaultSpec::default(),
                 knobs: Knobs::default(),
                 hash_seed: sc.hash_seed,
@@ -453,6 +597,7 @@ impl Engine for C12 {
                     app_console: true,
                     app_legacy_date: sc.legacy_date_col,
                     net_faults: vec![],
+                    server_today: None,
                     fs_faults: FsFaultSpec::default(),
                     knobs: Knobs::default(),
                     hash_seed: sc.hash_seed,
@@ -579,6 +724,45 @@ impl Engine for C12 {
         if !sc.lookups.is_empty() && !sc.app_runs.is_empty() {
             let mut s = sc.clone();
             s.lookups.clear();
+            c.push(s);
+        }
+        if !sc.degraded.is_empty() {
+            let mut s = sc.clone();
+            s.degraded.clear();
+            c.push(s);
+            for i in 0..sc.degraded.len() {
+                let mut s = sc.clone();
+                s.degraded = vec![sc.degraded[i].clone()];
+                s.lookups.clear();
+                s.app_runs.clear();
+                s.sequences.clear();
+                c.push(s);
+                for j in 0..sc.degraded[i].lookups.len() {
+                    if sc.degraded[i].lookups.len() > 1 {
+                        let mut s = sc.clone();
+                        s.degraded[i].lookups.remove(j);
+                        c.push(s);
+                    }
+                }
+                for j in 0..sc.degraded[i].warm_lookups.len() {
+                    if sc.degraded[i].warm_lookups.len() > 1 {
+                        let mut s = sc.clone();
+                        s.degraded[i].warm_lookups.remove(j);
+                        c.push(s);
+                    }
+                }
+                for j in 0..sc.degraded[i].net_faults.len() {
+                    if sc.degraded[i].net_faults[j].is_some() {
+                        let mut s = sc.clone();
+                        s.degraded[i].net_faults[j] = None;
+                        c.push(s);
+                    }
+                }
+            }
+        }
+        if sc.format.obs_order != 0 {
+            let mut s = sc.clone();
+            s.format.obs_order = 0;
             c.push(s);
         }
         if !sc.sequences.is_empty() {
@@ -732,6 +916,11 @@ impl Engine for C12 {
             "probe.app_sell_rows",
             "probe.console_run_rejected_with_message",
             "fault.obs_malformed_on_lookup_path",
+            "probe.degraded_network_runs",
+            "probe.degraded_lookup_failed_on_fault",
+            "probe.observations_listed_descending",
+            "probe.observations_listed_late",
+            "probe.observations_listed_twice",
         ]
     }
 }
